@@ -2,6 +2,10 @@ package composite
 
 import (
 	"net/http"
+
+	"metacontroller/pkg/apis/metacontroller/v1alpha1"
+	"metacontroller/pkg/controller/common"
+	"metacontroller/pkg/hooks"
 	"testing"
 
 	vs "metacontroller/pkg/internal/verifsim"
@@ -332,4 +336,30 @@ func TestVerifC14Composite(t *testing.T) {
 
 func TestVerifC15Composite(t *testing.T) {
 	vs.Run(t, "C15", func(c *vs.Case) error { return vw.PropC15(c, compositeFactory, "composite") })
+}
+
+func TestVerifC20Composite(t *testing.T) {
+	vs.Run(t, "C20", func(c *vs.Case) error {
+		env := vw.NewC20Env()
+		return vw.PropC20(c, "composite", env, newC20CompositeDriver(env))
+	})
+}
+
+func TestVerifC20Regressions(t *testing.T) {
+	vs.RunFixed(t, "C20", map[string]func() error{
+		// F9: ETag enabled with cacheTimeoutSeconds but without cacheCleanupSeconds must not crash the process
+		"etag-config-without-cleanup-interval": func() error {
+			enabled, ten := true, int32(10)
+			url := "http://hook.invalid/x/sync"
+			var perr any
+			func() {
+				defer func() { perr = recover() }()
+				_, _ = hooks.NewWebhookExecutor(&v1alpha1.Webhook{URL: &url, Etag: &v1alpha1.WebhookEtagConfig{Enabled: &enabled, CacheTimeoutSeconds: &ten}}, "x", common.CompositeController, common.SyncHook)
+			}()
+			if perr != nil {
+				return vs.Violf("C20/reconcile-panicked", "webhook with etag.enabled and cacheTimeoutSeconds but no cacheCleanupSeconds: NewWebhookExecutor panicked: %v", perr)
+			}
+			return nil
+		},
+	})
 }
